@@ -145,6 +145,14 @@ def build_world(w, inp):
     elif kind == "link":
         put_files(w, inp["files"])
         set_phase(p, inp["which"], inp["ph"])
+        # a stale ' (deleted)' name may fail to stat() in other ways than ENOENT: a parent component
+        # replaced by a file (ENOTDIR), a name that is too long once the suffix is appended (ENAMETOOLONG)
+        if inp["ph"]["st"] == "ok":
+            tgt = sdec(inp["ph"]["target"]).split("\0")[0]
+            if tgt.endswith(" (deleted)") and tgt not in w.files and tgt not in w.dirs:
+                n = len(json.dumps(inp, sort_keys=True))
+                if n % 3:
+                    w.deny[tgt] = (errno.ENOTDIR, errno.ENAMETOOLONG)[n % 3 - 1]
     elif kind == "name":
         set_cmd(p, inp["cmdstate"], inp["raw"])
     elif kind == "exe":
